@@ -6,3 +6,4 @@ CONSTANT SingleMultiClash = TRUE
 INVARIANT InvVerdict
 INVARIANT InvErrorKind
 INVARIANT InvSemantics
+INVARIANT InvCount
